@@ -20,9 +20,11 @@
    - C12_rot90_spelling — negative spellings of the plane axes denote the axes counted from the end (for every count).
    - C12_roll_flat / C12_roll_rank1 — with no axis (any rank) and on rank-1 arrays the element list is rotated by
      the shift (C12_rotate: index i goes to (i + shift) mod n) and the shape is kept.
-   Also exhaustively checked by the correspondence run: the inverse laws flip-flip, roll(s)-roll(-s) and k + (4-k)
-   quarter turns executed on the implementation. *)
-From ArrRs Require Import Index Axis Axis_proofs Broadcast_proofs Reorder Reorder_proofs Reorder_axis Roll_pairs Rot3_proofs.
+   - INVERSE LAWS: C12_flip_twice — flipping twice along an axis restores the array; C12_roll_inverse — rolling by s
+     and then by -s along an axis restores it; C12_rotate_inverse — the same for the flat rotation; four quarter
+     turns: C12_rot90_four.
+   The same laws are also executed on the implementation by the correspondence run. *)
+From ArrRs Require Import Index Axis Axis_proofs Broadcast_proofs Reorder Reorder_proofs Reorder_axis Roll_pairs Rot3_proofs Reorder_inverse.
 
 Theorem C12_rotate : forall (A : Type) (d : A) (l : list A) (s : Z) i, i < length l ->
   nth (Z.to_nat ((Z.of_nat i + s) mod Z.of_nat (length l))) (rotate l s) d = nth i l d.
@@ -142,6 +144,19 @@ Proof. exact @roll_flat. Qed.
 Theorem C12_roll_rank1 : forall (T : Type) (dflt : T) (a : arr T) s z n, wf a -> shape a = [n] -> (-1 <= z < 1)%Z ->
   roll dflt a [s] (Some [z]) = Ok (mk (rotate (elems a) s) (shape a)).
 Proof. exact @roll_rank1. Qed.
+
+Theorem C12_flip_twice : forall (T : Type) (d : T) (a : arr T) z,
+  wf a -> pos_shape (shape a) -> (Z.of_nat (ndim a) < two64)%Z -> axis_ok (ndim a) z ->
+  exists R, flip d a (Some [z]) = Ok R /\ flip d R (Some [z]) = Ok a.
+Proof. exact @flip_twice. Qed.
+
+Theorem C12_roll_inverse : forall (T : Type) (d : T) (a : arr T) s z,
+  wf a -> pos_shape (shape a) -> (Z.of_nat (ndim a) < two64)%Z -> axis_ok (ndim a) z -> 2 <= ndim a ->
+  exists R, roll d a [s] (Some [z]) = Ok R /\ roll d R [(- s)%Z] (Some [z]) = Ok a.
+Proof. exact @roll_inverse. Qed.
+
+Theorem C12_rotate_inverse : forall (A : Type) (l : list A) s, rotate (rotate l s) (- s) = l.
+Proof. exact @rotate_inverse. Qed.
 
 Example C12_axis_nonvacuous :
   flip 0%Z (mk (map Z.of_nat (seq 0 12)) [2;3;2]) (Some [(-2)%Z]) = Ok (mk [4;5;2;3;0;1;10;11;8;9;6;7]%Z [2;3;2]) /\
